@@ -55,7 +55,7 @@ try:
             try: am = json.load(open(f'{src}/meta.json')).get('agent_meta', {})
             except Exception: am = {}
         if am.get('demo_dir'):
-            pkgdir = am['demo_dir'].strip('/').replace('/tmp/wt3/' + ID, '').strip('/') or '.'
+            pkgdir = re.sub(r'^/?tmp/wt\d+/' + ID, '', am['demo_dir'].strip('/')).strip('/') or '.'
         raceflag = '-race ' if am.get('demo_failure_mode') == 'race' else ''
         tests = re.findall(r'^func (Test\w+)\(', text, re.M)
         os.makedirs(os.path.join(wt, pkgdir), exist_ok=True)
